@@ -61,6 +61,12 @@ struct Case {
     context: Context,
     /// Tear-down context only: use the wrapper once before the thread exits.
     prime: bool,
+    /// TLS-destructor context: a first wrapper call made *after* the guard's
+    /// thread-local was registered, so that the profiler's own thread-local
+    /// (if it has a destructor) is torn down *before* the guard's destructor
+    /// issues the requests.
+    #[serde(default)]
+    prime_late: bool,
     reqs: Vec<Req>,
     /// The process-wide "ignore allocation tallies" flag (set by divan's own
     /// benchmarks of the profiler) is on while the requests are issued.
@@ -251,13 +257,15 @@ fn check_case_inner(case: &Case) -> Verdict {
         }
         Context::FreshThread => {
             let reqs = case.reqs.clone();
-            match std::thread::spawn(move || {
-                // First action on this thread that involves the wrapper.
-                galloc::set_bypass(true);
-                drive(&reqs)
-            })
-            .join()
-            {
+            // (start-up allocations of the thread bypass the profiler too)
+            match galloc::bypass_all(|| {
+                std::thread::spawn(move || {
+                    // First action on this thread that involves the wrapper.
+                    galloc::set_bypass(true);
+                    drive(&reqs)
+                })
+                .join()
+            }) {
                 Ok(o) => o,
                 Err(_) => return Verdict::fail("thread-panic", "wrapper call panicked on a fresh thread"),
             }
@@ -266,15 +274,25 @@ fn check_case_inner(case: &Case) -> Verdict {
             let result: Arc<Mutex<Option<Outcome>>> = Arc::new(Mutex::new(None));
             let reqs = case.reqs.clone();
             let prime = case.prime;
+            let prime_late = case.prime_late;
             let slot = result.clone();
-            let joined = std::thread::spawn(move || {
-                galloc::set_bypass(true);
-                if prime {
-                    let _ = drive(&[Req::Alloc { size: 1, align_log2: 0, ret: 8 }]);
-                }
-                GUARD.with(|g| *g.borrow_mut() = Some(Guard { reqs, result: slot }));
-            })
-            .join();
+            // The thread's own start-up must not be the first use of the
+            // profiler on it (that would fix the order of the thread-local
+            // destructors): nothing reaches the harness's profiled global
+            // allocator while the thread lives.
+            let joined = galloc::bypass_all(|| {
+                std::thread::spawn(move || {
+                    galloc::set_bypass(true);
+                    if prime {
+                        let _ = drive(&[Req::Alloc { size: 1, align_log2: 0, ret: 8 }]);
+                    }
+                    GUARD.with(|g| *g.borrow_mut() = Some(Guard { reqs, result: slot }));
+                    if prime_late {
+                        let _ = drive(&[Req::Alloc { size: 1, align_log2: 0, ret: 8 }]);
+                    }
+                })
+                .join()
+            });
             if joined.is_err() {
                 return Verdict::fail("thread-panic", "wrapper call panicked during thread tear-down");
             }
@@ -294,7 +312,7 @@ fn check_case_inner(case: &Case) -> Verdict {
             format!("[{:?}] {} call(s) reached the global allocator from inside wrapper calls", case.context, outcome.reentrant_calls),
         );
     }
-    classify(format!("{:?}", case.context));
+    classify(format!("{:?}{}{}", case.context, if case.prime { "/primed" } else { "" }, if case.prime_late { "/primed-late" } else { "" }));
     let has_null = case.reqs.iter().any(|r| matches!(r, Req::Alloc { ret: 0, .. } | Req::AllocZeroed { ret: 0, .. } | Req::Realloc { ret: 0, .. }));
     let has_realloc = case.reqs.iter().any(|r| matches!(r, Req::Realloc { .. }));
     Verdict::pass((has_null && has_realloc) || (case.context != Context::Established && !case.reqs.is_empty()))
@@ -334,21 +352,21 @@ fn groups(g: &mut Groups) {
         "established",
         60_000,
         3_000_000,
-        || (proptest::collection::vec(req(), 1..=200), prop::bool::weighted(0.2)).prop_map(|(reqs, ignore_alloc)| Case { context: Context::Established, prime: false, reqs, ignore_alloc }),
+        || (proptest::collection::vec(req(), 1..=200), prop::bool::weighted(0.2)).prop_map(|(reqs, ignore_alloc)| Case { context: Context::Established, prime: false, prime_late: false, reqs, ignore_alloc }),
         check_case,
     );
     g.prop(
         "fresh_thread",
         6_000,
         200_000,
-        || (proptest::collection::vec(req(), 1..=40), prop::bool::weighted(0.2)).prop_map(|(reqs, ignore_alloc)| Case { context: Context::FreshThread, prime: false, reqs, ignore_alloc }),
+        || (proptest::collection::vec(req(), 1..=40), prop::bool::weighted(0.2)).prop_map(|(reqs, ignore_alloc)| Case { context: Context::FreshThread, prime: false, prime_late: false, reqs, ignore_alloc }),
         check_case,
     );
     g.prop(
         "tls_destructor",
         6_000,
         200_000,
-        || (proptest::collection::vec(req(), 1..=40), any::<bool>(), prop::bool::weighted(0.2)).prop_map(|(reqs, prime, ignore_alloc)| Case { context: Context::TlsDestructor, prime, reqs, ignore_alloc }),
+        || (proptest::collection::vec(req(), 1..=40), any::<bool>(), any::<bool>(), prop::bool::weighted(0.2)).prop_map(|(reqs, prime, prime_late, ignore_alloc)| Case { context: Context::TlsDestructor, prime, prime_late, reqs, ignore_alloc }),
         check_case,
     );
 }
